@@ -390,7 +390,7 @@ def h_tiny_values(E, idx):
     return 'value'
 
 
-SHAPES = [(), (2,), (3,), (2, 2), (2, 3), (3, 3), (2, 2, 2), (3, 3, 3), (2, 2, 2, 2)]
+SHAPES = [(), (1,), (2,), (3,), (1, 1), (1, 3), (2, 2), (2, 3), (3, 3), (1, 1, 1), (2, 2, 2), (3, 3, 3), (2, 2, 2, 2)]
 
 
 def _shape_domain(fname, shape):
@@ -404,6 +404,12 @@ def _shape_domain(fname, shape):
         return nd == 2 and shape[0] == shape[1]
     if fname == 'cross':
         return shape == (3,)
+    size = 1
+    for k in shape:
+        size *= k
+    if nd > 0 and size == 1:
+        return None           # an array holding ONE number is 'number-like' (specify_domain.number_validator): the plain functions take it as that number,
+        # the derived ones (1/sin ...) refuse to divide by an array - either outcome is a value or a student-facing error, both allowed here
     return nd == 0        # every element-wise function, arctan2, kronecker, min, max: scalars only
 
 
@@ -423,9 +429,15 @@ def h_shapes(E, fname):
     try:
         v, _ = evaluator(expr, {'x': x}, MatrixGrader.default_functions, DEFAULT_SUFFIXES, max_array_dim=4)
     except StudentFacingError as e:
-        E.check('argument-shape-outside-domain-iff-student-facing-error', not ok)
+        E.check('argument-shape-outside-domain-iff-student-facing-error', ok is None or not ok)
         return type(e).__name__
-    E.check('argument-shape-outside-domain-iff-student-facing-error', ok)
+    E.check('argument-shape-outside-domain-iff-student-facing-error', ok is None or ok)
+    if fname in ('re', 'im', 'conj'):
+        E.check('entrywise-function-keeps-the-shape', getattr(v, 'shape', ()) == shape)
+    if fname in ('trans', 'ctrans', 'adj'):
+        E.check('transpose-reverses-the-shape', getattr(v, 'shape', ()) == tuple(reversed(shape)))
+    if fname in ('norm', 'abs', 'det', 'trace'):
+        E.check('scalar-valued-function-returns-a-scalar', getattr(v, 'shape', ()) == ())
     return 'value'
 
 
